@@ -3,7 +3,7 @@
    Message ids are indices into a per-case table of contents; [mk] = first index with that content (cf. Gen/TiePaired.v).
    Positions: the instance Z (Python ints) and the instance binary64 (Python floats; contents compared bit for bit). *)
 From Coq Require Import PrimFloat.
-From BV Require Import Base.Prelude Base.FloatOps Gen.Coalg Gen.PyGen Gen.Mutators Gen.Tie Gen.Paired Gen.Insert Gen.Relative Gen.TiePaired.
+From BV Require Import Base.Prelude Base.FloatOps Gen.Coalg Gen.PyGen Gen.Mutators Gen.Tie Gen.Paired Gen.Insert Gen.Relative Gen.During Gen.TiePaired.
 
 Section TieRel.
   Context {T : Type}.
@@ -90,3 +90,16 @@ Definition c23_lazy (fixed : bool) (parents : list (dev * dev)) (lists : list (l
   let init := lazy_init (cl_init plan) in
   runs_ok res init runs
   && Bool.eqb fb (existsb (fun so => run_exists res c23b_step init (fst so)) runs).
+
+(* ------------------------------------------------------------------ monitor_during_wrapper / fly_during_wrapper (C23) *)
+(* [fc] = the implementation-side mirror of finding class C23-c on these runs *)
+Definition c23_during (fly : bool) (devs : list dev) (tbl : list mview) (plan : stmt) (fc : bool)
+           (runs : list (list input * list obs)) : bool :=
+  let mk := mk_t tbl in
+  let after := if fly then fly_after mk devs else monitor_after mk devs in
+  let before := if fly then fly_before mk devs else monitor_before mk devs in
+  let res := during_resume (cl_resume tie_fuel) (view_t tbl) is_status_t pm_fuel after before in
+  let init := during_init (cl_init plan) in
+  runs_ok res init runs
+  && Bool.eqb fc (existsb (fun so => run_exists res (c23c_step (cl_resume tie_fuel) (view_t tbl) is_status_t pm_fuel after before)
+                                                 init (fst so)) runs).
